@@ -377,3 +377,9 @@ def r4(c):
 def r5(c):
     from rules import c18
     c18.r1(c)
+
+
+@rule('C09', 'R09.6', 'through the C ABI the server name is verified unless the caller opted in with both the wildcard flag and the name "*" (C18/R18.8)', needs=lambda P: HAS_TLS(P) and P.has('rodbus_ffi::ffi::TlsClientConfig::dns_name'))
+def r6(c):
+    from rules import c18
+    c18.r8(c)
